@@ -71,9 +71,18 @@ CORPUS = [
 ]
 
 
+def _load_corpus():
+    """corpus/Cxx/*.json (witnesses and examples; falls back to the inline list)"""
+    d = C.VERIF / "corpus" / PROP
+    files = sorted(d.glob("*.json")) if d.is_dir() else []
+    if not files:
+        return [dict(c) for c in CORPUS]
+    return [json.loads(f.read_text()) for f in files]
+
+
 def cases(rng: random.Random, tier: str):
-    out = [dict(c) for c in CORPUS]
-    n = 1500 if tier == "quick" else 12000
+    out = _load_corpus()
+    n = 12000 if tier == "quick" else 80000
     for i in range(n):
         ws = rng.random() < 0.7
         cfg = GE.GenCfg(n_names=rng.choice([3, 4, 4, 5]), max_depth=rng.choice([2, 3, 4, 4, 5, 5]), well_scoped=ws,
